@@ -128,6 +128,10 @@ pub fn bursts() -> Vec<Burst> {
     // newcomer's JOIN) comes before both or after both
     v.push(mk("kick-vs-rejoin", base_cfg(), 3, users3(), vec![], chan3.clone(), vec![(0, vec!["KICK #c bob :out"]), (1, vec!["JOIN #c"])]));
     v.push(mk("kick-vs-join", base_cfg(), 3, users3(), vec![], vec![(0, "JOIN #c"), (1, "JOIN #c")], vec![(0, vec!["KICK #c bob :out"]), (2, vec!["JOIN #c"])]));
+    // a query that walks the channels while one of them vanishes is answered all the same
+    // (one channel only: replies about several channels come in hash order)
+    v.push(mk("list-vs-last-part", base_cfg(), 3, users3(), vec![], vec![(0, "JOIN #v")], vec![(0, vec!["PART #v"]), (1, vec!["LIST"])]));
+    v.push(mk("names-vs-last-part", base_cfg(), 3, users3(), vec![], vec![(0, "JOIN #v")], vec![(0, vec!["PART #v"]), (1, vec!["NAMES"])]));
     v.push(mk("quit-vs-invite", base_cfg(), 3, users3(), vec![], vec![(0, "JOIN #c"), (1, "JOIN #c")], vec![(0, vec!["INVITE carol #c"]), (2, vec!["QUIT"])]));
     v
 }
